@@ -3,6 +3,10 @@ use crate::report::{Report, Violation};
 use serde_json::Value;
 
 pub mod c01;
+pub mod c05;
+pub mod c06;
+pub mod c12;
+pub mod c13;
 pub mod common;
 
 pub fn level_of(prop: &str) -> &'static str {
@@ -16,6 +20,10 @@ pub fn level_of(prop: &str) -> &'static str {
 pub fn run(prop: &str, rep: &Report) {
     match prop {
         "C01" => c01::run(rep),
+        "C05" => c05::run(rep),
+        "C06" => c06::run(rep),
+        "C12" => c12::run(rep),
+        "C13" => c13::run(rep),
         _ => rep.machinery_error(format!("no check for {prop}")),
     }
 }
@@ -23,6 +31,9 @@ pub fn run(prop: &str, rep: &Report) {
 pub fn replay(case: &Value) -> Vec<Violation> {
     match case["kind"].as_str().unwrap_or("") {
         "issue" | "pipeline" => crate::pipeline::replay_case(case),
+        "weak_selection" => c06::replay_weak(case),
+        "c12_order" => c12::replay_order(),
+        "reserved" => c13::replay(case),
         k => {
             eprintln!("replay: unknown case kind {k}");
             vec![]
